@@ -13,6 +13,7 @@ import (
 	"runtime"
 	"sort"
 	"strings"
+	"sync"
 	"syscall"
 	"time"
 
@@ -491,4 +492,42 @@ type shardOut struct {
 	Info     map[string]any     `json:"info"`
 	Viol     []*Violation       `json:"viol"`
 	Distinct int                `json:"distinct"`
+}
+
+// Concurrently runs f(g, k) from n goroutines, rounds times each, and returns
+// the first non-empty description any call returned (a wrong result or a
+// panic). It is for read-only operations on shared values and for pure
+// functions, which every goroutine may use at once; no verdict depends on
+// timing - a wrong result is wrong whenever it shows - and the run is bounded
+// by n*rounds calls.
+func Concurrently(n, rounds int, f func(g, k int) string) string {
+	var wg sync.WaitGroup
+	var mu sync.Mutex
+	first := ""
+	note := func(s string) {
+		mu.Lock()
+		if first == "" {
+			first = s
+		}
+		mu.Unlock()
+	}
+	for g := 0; g < n; g++ {
+		wg.Add(1)
+		go func(g int) {
+			defer wg.Done()
+			defer func() {
+				if r := recover(); r != nil {
+					note(fmt.Sprintf("panic in goroutine %d: %v", g, r))
+				}
+			}()
+			for k := 0; k < rounds; k++ {
+				if s := f(g, k); s != "" {
+					note(s)
+					return
+				}
+			}
+		}(g)
+	}
+	wg.Wait()
+	return first
 }
